@@ -811,9 +811,12 @@ pub mod system_time_conversion {
                 i64::try_from(micros).ok()
             }
             Err(e) => {
-                // Safely convert to i64 microseconds (negative), or return None.
+                // Safely convert to i64 microseconds (negative), or return None.  Subtract the
+                // magnitude from zero so that 2^63 (i64::MIN) is representable.
                 let micros: u128 = e.duration().as_micros();
-                i64::try_from(micros).ok().and_then(i64::checked_neg)
+                u64::try_from(micros)
+                    .ok()
+                    .and_then(|micros| 0i64.checked_sub_unsigned(micros))
             }
         }
     }
